@@ -165,6 +165,35 @@ func GenBeacon(prop string, seed uint64, tier string) *BeaconScenario {
 			}
 		}
 		sc.ExpectNone = k < sc.T
+		if sc.N >= 3 && sc.T >= 2 && sc.T <= sc.N-0 && r.Bool(20) {
+			// a member that signs along in the first epoch is left out of the reshared group (its index becomes a
+			// hole) but keeps sending partials made with the share it was dealt: with t-1 real members besides
+			// it, nothing may be stored from the transition on
+			order := r.Perm(sc.N)
+			for j, i := range order {
+				switch {
+				case j < sc.T-1:
+					sc.Roles[i] = "honest"
+				case j == sc.T-1:
+					sc.Roles[i] = "byz"
+				default:
+					sc.Roles[i] = "silent"
+				}
+			}
+			dropped := order[sc.T-1]
+			sc.ExpectNone = false
+			faultRounds = r.Range(6, 9)
+			faultEnd = g0 + int64(faultRounds)*periodMs
+			sc.Reshare = &Reshare{AtRound: uint64(r.Range(3, 4)), NewT: sc.T, Drop: dropped + 1}
+			sc.Reshare.AnnounceMs = g0 + int64(sc.Reshare.AtRound-2)*periodMs - int64(r.Intn(int(periodMs)))
+			add(Act{AtMs: sc.Reshare.AnnounceMs, Kind: "reshare"})
+			for t := g0 - periodMs/2; t < faultEnd; t += periodMs / 3 {
+				add(Act{AtMs: t + int64(r.Intn(int(periodMs/3))), Kind: "byz", Node: dropped, S: "valid", A: int64(r.Range(0, 1))})
+			}
+			sc.HealAtMs = faultEnd
+			sc.Rounds = faultRounds + 4
+			return sc
+		}
 		faultRounds = r.Range(4, 8)
 		faultEnd = g0 + int64(faultRounds)*periodMs
 		// below the threshold the byzantine members must not contribute anything valid
